@@ -396,3 +396,74 @@ def run_sampled(crate, harnesses, n=20000, seed=1, timeout=1800):
         res.append(r)
     return {'crate': crate, 'cmd': 'cd %s && RUSTFLAGS="--cfg libtw2_verif" VERIF_SAMPLE=%d:%d %s' % (REPO, n, seed, ' '.join(cmd)),
             'wall_s': wall, 'harnesses': res, 'rc': rc}
+
+
+def canary_targets(unit):
+    """(find, fn name) of every function of the unit that is verified against a contract."""
+    import tomllib
+    spec = tomllib.load(open(os.path.join(VERIF, 'units', unit, 'unit.toml'), 'rb'))
+    out = []
+    for it in spec.get('item', []):
+        if it.get('outer') or it.get('mode', 'verify') != 'verify' or not it.get('contract'):
+            continue
+        m = re.search(r'\bfn\s+([A-Za-z_][A-Za-z_0-9]*)', it['find'])
+        if not m:
+            continue
+        name = m.group(1)
+        inside = it.get('inside') or (it.get('wrap') if isinstance(it.get('wrap'), str) else None)
+        if inside and re.match(r'\s*impl\b', inside):
+            t = re.sub(r'^\s*impl\s*', '', inside)
+            if t.startswith('<'):      # skip the impl's generic parameter list
+                depth = 0
+                for k, ch in enumerate(t):
+                    depth += ch == '<'
+                    depth -= ch == '>'
+                    if depth == 0:
+                        t = t[k + 1:]
+                        break
+            if ' for ' in t:
+                t = t.split(' for ', 1)[1]
+            tm = re.match(r'\s*([A-Za-z_][A-Za-z_0-9]*)', t)
+            if tm:
+                name = tm.group(1) + '::' + name
+        out.append((it['find'], name))
+    return out
+
+
+def run_canary(unit, find, fn_name, idx, rlimit=None):
+    """Vacuity guard: re-extract the unit with `ensures false` appended to this one function's contract and verify
+    only that function.  The verifier MUST report an error; if it does not, the function's preconditions (or an
+    assumption in its body) are contradictory and its normal 'verified' verdict means nothing."""
+    unit_dir = os.path.join(VERIF, 'units', unit)
+    gen_name = '%s_canary_%d.rs' % (unit, idx)
+    gen = os.path.join(BUILD, gen_name)
+    try:
+        spec, log, linemap = build_unit(unit_dir, gen, canary=find)
+    except Exception as e:
+        return {'unit': unit, 'function': fn_name, 'status': 'undecided', 'reason': 'extraction: %s' % e}
+    cmd = ['verus', gen_name, '--output-json', '--num-threads', '2', '--verify-root', '--verify-function', fn_name]
+    rl = rlimit or spec.get('rlimit')
+    if rl:
+        cmd += ['--rlimit', str(rl)]
+    rc, out, err, wall = _run(cmd, cwd=BUILD, timeout=int(spec.get('timeout', 600)))
+    if 'more than one match found for --verify-function' in err:
+        # several functions share the name: verify all of them; only the canaried one can fail
+        cmd[cmd.index('--verify-function') + 1] = '*%s*' % fn_name
+        rc, out, err, wall = _run(cmd, cwd=BUILD, timeout=int(spec.get('timeout', 600)))
+    try:
+        vr = json.loads(out).get('verification-results', {})
+    except Exception:
+        vr = {}
+    try:
+        os.remove(gen)
+    except OSError:
+        pass
+    r = {'unit': unit, 'function': fn_name, 'wall_s': wall}
+    if vr.get('errors', 0) >= 1 and 'postcondition not satisfied' in err:
+        r['status'] = 'ok'          # the impossible postcondition is refused: the contract is not vacuous
+    elif vr.get('errors', 0) == 0 and vr.get('verified', 0) >= 1 and vr.get('success'):
+        r['status'] = 'vacuous'
+    else:
+        r['status'] = 'undecided'
+        r['reason'] = (err or out)[-400:].replace('\n', ' / ')
+    return r
